@@ -243,7 +243,7 @@ pub fn analyse_msg(msg: &str) -> (J, J) {
     (J::Array(segs), J::Array(digit_runs(&outside)))
 }
 
-/// `.key[3].k2` (JsonError) or `key[3].k2` (QueryParamError) read back as steps; keys are [A-Za-z0-9_]+
+/// `.key[3].k2` (JsonError) or `key[3].k2` (QueryParamError) read back as steps; keys are letters, digits and underscores
 fn parse_path(p: &str) -> J {
     let b: Vec<char> = p.chars().collect();
     let mut steps = Vec::new();
@@ -275,7 +275,7 @@ fn parse_path(p: &str) -> J {
                 return json!({"z": "none", "steps": []});
             }
             let st = i;
-            while i < b.len() && (b[i].is_ascii_alphanumeric() || b[i] == '_') {
+            while i < b.len() && (b[i].is_alphanumeric() || b[i] == '_') {
                 i += 1;
             }
             if i == st {
